@@ -200,3 +200,58 @@ def first_token(dialect, text):
 
 def lex_side():
     return json.load(open(os.path.join(common.ROOT, 'gen', 'lex.json')))
+
+
+# ---------------------------------------------------------------- round 5: pre-lexing step, content alphabets
+# every control / white-space character that a text normalisation in front of the lexer could touch
+CTRL = ['\r', '\n', '\t', '\x0b', '\x0c', '\x1c', '\x1d', '\x1e', '\x1f', '\x85', '\u2028', '\u2029']
+# content that Unicode / white-space / case normalisations, BOM or NUL stripping, smart-quote replacement would change
+NORMALISE_POOL = ['e\u0301', '\xe9', '\ufb01', '\uff21', '\xb2', 'a  b', ' a', 'a ', '  ', '\ufeff', 'a\ufeffb',
+                  '\u200b', '\xa0', 'a\xa0b', '\xdf', '\u0130', '\u2018', '\u2019x', '\u201c', '\u201d', 'a\tb',
+                  '\x7f', '\x1b[0m', '\xad', '\u202e', '\u212b', '\u1e9b\u0323', 'A\u030a', ' \t ', '\x01', 'a\x00b',
+                  'x;', ';', 'a;\n', '\\\r\n', '--\r\n', '/*\r\n*/', '\r\n;', 'Tab\there',
+                  '\uff33\uff25\uff2c\uff25\uff23\uff34']
+
+
+def ctrl_contents():
+    """contents holding every ordered pair (and every single) of the control / white-space characters: alone and
+    between two letters"""
+    out = []
+    for a in CTRL:
+        out += [a, 'a' + a + 'b']
+        for b in CTRL:
+            out += [a + b, 'a' + a + b + 'b']
+    return out
+
+
+def lexer_input(dialect, sql):
+    """the text the real parse_sql hands to lexer.tokenize (None = parse_sql did not reach the lexer through
+    get_lexer_parser); the outcome of the parse itself is irrelevant here"""
+    import mindsdb_sql as M
+    seen = []
+    orig = M.get_lexer_parser
+
+    def wrapped(d):
+        lexer, parser = orig(d)
+        tok = lexer.tokenize
+
+        def tokenize(text, *a, **k):
+            seen.append(text)
+            return tok(text, *a, **k)
+        lexer.tokenize = tokenize
+        return lexer, parser
+    M.get_lexer_parser = wrapped
+    try:
+        try:
+            M.parse_sql(sql, dialect)
+        except Exception:
+            pass
+    finally:
+        M.get_lexer_parser = orig
+    return seen[0] if seen else None
+
+
+def py_space_points():
+    """code points matched by `\\s` of a str pattern (all of Unicode)"""
+    ws = re.compile(r'\s')
+    return [c for c in range(0x110000) if ws.fullmatch(chr(c))]
